@@ -262,7 +262,7 @@ func (g G) tamper(label string, m *MsgSpec) {
 		case "wrap":
 			m.Tamper = append(m.Tamper, Tamper{Op: "wrap", A: g.intn(lab+".wa", 2), B: g.intn(lab+".wb", 2), S: g.pick(lab+".ws", "", "ProtocolBinding="+BindRedirect, "Destination=https://evil.example/SSO")})
 		case "resign-rogue":
-			m.Tamper = append(m.Tamper, Tamper{Op: "resign", A: g.pick2(lab+".rk", KeyRogue, KeySPRot, KeyIDPResp0), B: g.intn(lab+".rki", 2)})
+			m.Tamper = append(m.Tamper, Tamper{Op: "resign", A: g.pick2(lab+".rk", KeyRogue, KeySPRot, KeyIDPResp0, KeyEnc, KeyEnc), B: g.intn(lab+".rki", 2)})
 		case "soap_header_wrap":
 			m.Tamper = append(m.Tamper, Tamper{Op: "soap_header_wrap", A: g.intn(lab+".victim", 4)})
 			if m.Sign == "" {
@@ -297,7 +297,7 @@ func (g G) tamper(label string, m *MsgSpec) {
 		case "swap_sigalg":
 			m.Tamper = append(m.Tamper, Tamper{Op: "swap_sigalg", S: g.pick(lab+".alg", "", "", AlgRSASHA512, "http://www.w3.org/2000/09/xmldsig#dsa-sha1", "http://www.w3.org/2009/xmldsig11#dsa-sha256", "none")})
 		case "foreign_sig":
-			m.Tamper = append(m.Tamper, Tamper{Op: "foreign_sig", A: g.pick2(lab+".fk", KeyRogue, KeySPRot, KeyIDPResp0)})
+			m.Tamper = append(m.Tamper, Tamper{Op: "foreign_sig", A: g.pick2(lab+".fk", KeyRogue, KeySPRot, KeyIDPResp0, KeyEnc)})
 		case "dup_param":
 			m.Tamper = append(m.Tamper, Tamper{Op: "dup_param", S: g.pick(lab+".dp", "SAMLRequest", "RelayState", "Signature", "SigAlg")})
 		case "truncate_query":
